@@ -6,6 +6,7 @@ package main
 
 import (
 	"encoding/json"
+	"fmt"
 	"math"
 	"time"
 
@@ -57,6 +58,53 @@ func datasetA() sl.Op {
 	return op
 }
 
+// dataset W ("wide"): 1200 points with pairwise distinct integer, float and
+// string values, so that range scans run over many more distinct keys than any
+// batching or folding threshold inside a scan (and a few points that share a value)
+const wideN = 1200
+
+func datasetW() sl.Op {
+	op := sl.Op{Name: "insW", Kind: "ins"}
+	for i := 0; i < wideN; i++ {
+		v := i
+		if i >= wideN-10 {
+			v = i - 600 // ten points share a value with an earlier point
+		}
+		op.Ids = append(op.Ids, 1000+i)
+		op.Docs = append(op.Docs, sl.Doc{"a": int64(v), "f": float64(v) / 4, "s": fmt.Sprintf("k%05d", v), "si": fmt.Sprintf("K%05d", v), "tags": []string{fmt.Sprintf("t%d", v%700)}})
+	}
+	return op
+}
+
+func batteryW() []models.Query {
+	var qs []models.Query
+	bounds := []int{-1, 0, 1, 255, 256, 511, 512, 513, 1023, 1024, 1025, wideN - 11, wideN}
+	for _, b := range bounds {
+		for _, op := range []string{models.OperatorLessThan, models.OperatorLessOrEq, models.OperatorGreaterThan, models.OperatorGreaterOrEq, models.OperatorEquals, models.OperatorNotEquals} {
+			qs = append(qs, models.Query{Property: "a", Integer: &models.SearchIntegerOptions{Value: int64(b), Operator: op}})
+			qs = append(qs, models.Query{Property: "f", Float: &models.SearchFloatOptions{Value: float64(b) / 4, Operator: op}})
+			qs = append(qs, models.Query{Property: "s", String: &models.SearchStringOptions{Value: fmt.Sprintf("k%05d", max(b, 0)), Operator: op}})
+			qs = append(qs, models.Query{Property: "si", String: &models.SearchStringOptions{Value: fmt.Sprintf("k%05d", max(b, 0)), Operator: op}})
+		}
+		for _, e := range bounds {
+			if e > b {
+				qs = append(qs, models.Query{Property: "a", Integer: &models.SearchIntegerOptions{Value: int64(b), EndValue: int64(e), Operator: models.OperatorInRange}})
+				qs = append(qs, models.Query{Property: "f", Float: &models.SearchFloatOptions{Value: float64(b) / 4, EndValue: float64(e) / 4, Operator: models.OperatorInRange}})
+				if b >= 0 {
+					qs = append(qs, models.Query{Property: "s", String: &models.SearchStringOptions{Value: fmt.Sprintf("k%05d", b), EndValue: fmt.Sprintf("k%05d", e), Operator: models.OperatorInRange}})
+				}
+			}
+		}
+	}
+	qs = append(qs, models.Query{Property: "s", String: &models.SearchStringOptions{Value: "k00", Operator: models.OperatorStartsWith}}, models.Query{Property: "si", String: &models.SearchStringOptions{Value: "K0", Operator: models.OperatorStartsWith}})
+	var many []string
+	for i := 0; i < 700; i += 7 {
+		many = append(many, fmt.Sprintf("t%d", i))
+	}
+	qs = append(qs, models.Query{Property: "tags", StringArray: &models.SearchStringArrayOptions{Value: many, Operator: models.OperatorContainsAny}})
+	return qs
+}
+
 func batteryA() []models.Query {
 	var qs []models.Query
 	qs = append(qs, sl.StringLeaves("s", strVals)...)
@@ -90,6 +138,14 @@ func docB(v int) sl.Doc {
 func symbols() *sl.Symbols {
 	return sl.NewSymbols(
 		datasetA(),
+		datasetW(),
+		sl.Op{Name: "delW(every 3rd of the first 900)", Kind: "del", Ids: func() []int {
+			var ids []int
+			for i := 0; i < 900; i += 3 {
+				ids = append(ids, 1000+i)
+			}
+			return ids
+		}()},
 		sl.Op{Name: "ins1(v0)", Kind: "ins", Ids: []int{1}, Docs: []sl.Doc{docB(0)}},
 		sl.Op{Name: "ins2(v0)", Kind: "ins", Ids: []int{2}, Docs: []sl.Doc{docB(0)}},
 		sl.Op{Name: "ins3(v1)", Kind: "ins", Ids: []int{3}, Docs: []sl.Doc{docB(1)}},
@@ -142,6 +198,9 @@ func factory(raw json.RawMessage) (seqx.System, error) {
 	if c.Battery == "A" {
 		qs = batteryA()
 	}
+	if c.Battery == "W" {
+		qs = batteryW()
+	}
 	return &sl.ShardSystem{In: in, M: sl.NewModel(c.Inst.Schema, in.Cfg.MaxPointSize), Syms: symbols(),
 		Battery: func(s *sl.ShardSystem) {
 			for _, q := range qs {
@@ -152,7 +211,7 @@ func factory(raw json.RawMessage) (seqx.System, error) {
 }
 
 func master(cfg *harness.Config, rep *harness.Report) {
-	rep.Rule = "A: every operator x every boundary value (x every end value for inRange) for case-sensitive and case-insensitive string, string-array, integer, float and nested-path indexes, plus all _and/_or trees of depth<=2 over a 6-leaf pool, over a fixed 13-point data set; B: breadth-first search over write histories (insert, change, remove via _delete, re-add, nested replace, delete, node-id reuse, empty strings) with a ~400-query leaf battery after every batch; memstore and bbolt. evaluations = queries compared with the direct evaluation on the model documents"
+	rep.Rule = "A: every operator x every boundary value (x every end value for inRange) for case-sensitive and case-insensitive string, string-array, integer, float and nested-path indexes, plus all _and/_or trees of depth<=2 over a 6-leaf pool, over a fixed 13-point data set; W: ~1.6 k range / comparison / prefix / containsAny queries with bounds around 0, 256, 512, 1024 and the ends over a 1200-point data set of pairwise distinct integer, float and string values (before and after deleting 300 of them); B: breadth-first search over write histories (insert, change, remove via _delete, re-add, nested replace, delete, node-id reuse, empty strings) with a ~400-query leaf battery after every batch; memstore and bbolt. evaluations = queries compared with the direct evaluation on the model documents"
 	rep.Assumptions = []string{"only queries that pass the API's own Validate() are issued", "case folding is strings.ToLower as the index declares", "NaN is not a storable value in the alphabet"}
 	p := pool.New(pool.Options{CPUsPerWorker: 2, JobTimeout: 60 * time.Second})
 	syms := symbols()
@@ -168,11 +227,12 @@ func master(cfg *harness.Config, rep *harness.Report) {
 	if !cfg.Quick() {
 		depth = 8
 	}
-	hist := []string{"ins1(v0)", "ins2(v0)", "ins3(v1)", "upd1(v1)", "upd1,2(v2)", "upd1(remove)", "upd1(add v0)", "upd2(n:{x})", "upd1(tags -> duplicates, same length)", "upd2(tags reordered)", "del1", "del1,2", "ins1(empty strings)"}
+	hist := []string{"ins1(v0)", "ins2(v0)", "ins3(v1)", "upd1(v1)", "upd1,2(v2)", "upd1(v1),3(v0) swap", "upd1(remove)", "upd1(add v0)", "upd2(n:{x})", "upd1(tags -> duplicates, same length)", "upd2(tags reordered)", "del1", "del1,2", "ins1(empty strings)"}
 	var specs []seqx.Spec
 	for _, be := range []string{"bbolt", "mem"} {
 		specs = append(specs,
 			seqx.Spec{Name: "A/" + be, Cfg: cfgT{sl.InstCfg{Backend: be, CacheSize: -1, Schema: schema(), Proxy: be == "bbolt"}, "A"}, Starts: [][]any{syms.Refs("insA")}, Depth: 0},
+			seqx.Spec{Name: "W/" + be, Cfg: cfgT{sl.InstCfg{Backend: be, CacheSize: -1, Schema: schema(), Proxy: be == "bbolt"}, "W"}, Starts: [][]any{syms.Refs("insW")}, Alphabet: syms.Refs("delW(every 3rd of the first 900)"), Depth: 1},
 			seqx.Spec{Name: "B/" + be, Cfg: cfgT{sl.InstCfg{Backend: be, CacheSize: -1, Schema: schema(), Proxy: be == "bbolt"}, "B"}, Alphabet: syms.Refs(hist...), Depth: depth, Dedup: true},
 		)
 	}
